@@ -1,6 +1,421 @@
 import Kanzi.Model.Normalize
 namespace Kanzi.Normalize
 
+/-! ### scaleOne -/
+
+theorem scaleOne_zero (t sc : Nat) : scaleOne t sc 0 = 0 := by simp [scaleOne]
+
+theorem scaleOne_pos (t sc f : Nat) (ht : 0 < t) (hf : 0 < f) : 0 < scaleOne t sc f := by
+  unfold scaleOne
+  split
+  · omega
+  · split
+    · omega
+    · apply Nat.div_pos
+      · omega
+      · exact ht
+
+/-! ### zero pattern -/
+
+/-- same length and same zero pattern -/
+def ZP (a b : List Nat) : Prop :=
+  a.length = b.length ∧ ∀ i, (0 < a.getD i 0 ↔ 0 < b.getD i 0)
+
+theorem ZP.refl (a : List Nat) : ZP a a := ⟨rfl, fun _ => Iff.rfl⟩
+
+theorem ZP.trans {a b c : List Nat} (h1 : ZP a b) (h2 : ZP b c) : ZP a c :=
+  ⟨h1.1.trans h2.1, fun i => (h1.2 i).trans (h2.2 i)⟩
+
+theorem ZP.cons {x y : Nat} {a b : List Nat} (hxy : 0 < x ↔ 0 < y) (h : ZP a b) :
+    ZP (x :: a) (y :: b) := by
+  refine ⟨by simp [h.1], fun i => ?_⟩
+  cases i with
+  | zero => simpa using hxy
+  | succ i => simpa using h.2 i
+
+/-! ### List.set bookkeeping -/
+
+theorem getD_set (l : List Nat) (m v i : Nat) :
+    (l.set m v).getD i 0 = if i = m ∧ m < l.length then v else l.getD i 0 := by
+  induction l generalizing m i with
+  | nil => simp
+  | cons x xs ih =>
+    cases m with
+    | zero =>
+      cases i with
+      | zero => simp
+      | succ i => simp
+    | succ m =>
+      cases i with
+      | zero => simp
+      | succ i =>
+        simp only [List.set_cons_succ, List.getD_cons_succ, List.length_cons,
+          Nat.add_lt_add_iff_right, Nat.add_right_cancel_iff, ih]
+
+theorem sum_set (l : List Nat) (m v : Nat) (hm : m < l.length) :
+    (l.set m v).sum + l.getD m 0 = l.sum + v := by
+  induction l generalizing m with
+  | nil => simp at hm
+  | cons x xs ih =>
+    cases m with
+    | zero => simp; omega
+    | succ m =>
+      have := ih m (by simpa using hm)
+      simp only [List.set_cons_succ, List.sum_cons, List.getD_cons_succ]; omega
+
+theorem ZP_set (l : List Nat) (m v : Nat) (hv : 0 < v ↔ 0 < l.getD m 0) : ZP (l.set m v) l := by
+  refine ⟨by simp, fun i => ?_⟩
+  rw [getD_set]
+  split
+  · rename_i h; rw [h.1]; exact hv
+  · exact Iff.rfl
+
+theorem getD_map_scaleOne (t sc : Nat) (h : List Nat) (i : Nat) :
+    (h.map (scaleOne t sc)).getD i 0 = scaleOne t sc (h.getD i 0) := by
+  induction h generalizing i with
+  | nil => simp [scaleOne_zero]
+  | cons x xs ih =>
+    cases i with
+    | zero => simp
+    | succ i => simp only [List.map_cons, List.getD_cons_succ, ih]
+
+theorem ZP_scale (t sc : Nat) (ht : 0 < t) (h : List Nat) : ZP (h.map (scaleOne t sc)) h := by
+  refine ⟨by simp, fun i => ?_⟩
+  rw [getD_map_scaleOne]
+  constructor
+  · intro hp
+    by_cases h0 : h.getD i 0 = 0
+    · rw [h0, scaleOne_zero] at hp; omega
+    · omega
+  · exact scaleOne_pos t sc _ ht
+
+/-! ### idxMax -/
+
+theorem sum_eq_zero_of_all_le (l : List Nat) (h : ∀ x ∈ l, x ≤ 0) : l.sum = 0 := by
+  induction l with
+  | nil => rfl
+  | cons x xs ih =>
+    have h1 := h x (by simp)
+    have h2 := ih (fun y hy => h y (by simp [hy]))
+    simp only [List.sum_cons]; omega
+
+theorem idxMaxAux_spec (l : List Nat) (i bi bv : Nat) :
+    (idxMaxAux l i bi bv = bi ∧ ∀ x ∈ l, x ≤ bv) ∨
+    (i ≤ idxMaxAux l i bi bv ∧ idxMaxAux l i bi bv < i + l.length ∧
+      bv < l.getD (idxMaxAux l i bi bv - i) 0) := by
+  induction l generalizing i bi bv with
+  | nil => left; simp [idxMaxAux]
+  | cons f fs ih =>
+    unfold idxMaxAux
+    split
+    · rename_i hf
+      right
+      have ih' := ih (i + 1) i f
+      generalize idxMaxAux fs (i + 1) i f = r at ih' ⊢
+      rcases ih' with ⟨h1, _⟩ | ⟨h1, h2, h3⟩
+      · subst h1; simp; omega
+      · refine ⟨by omega, by simp; omega, ?_⟩
+        have : r - i = (r - (i + 1)) + 1 := by omega
+        rw [this, List.getD_cons_succ]; omega
+    · rename_i hf
+      have ih' := ih (i + 1) bi bv
+      generalize idxMaxAux fs (i + 1) bi bv = r at ih' ⊢
+      rcases ih' with ⟨h1, h2⟩ | ⟨h1, h2, h3⟩
+      · left
+        refine ⟨h1, ?_⟩
+        intro x hx
+        simp only [List.mem_cons] at hx
+        rcases hx with rfl | hx
+        · omega
+        · exact h2 x hx
+      · right
+        refine ⟨by omega, by simp; omega, ?_⟩
+        have : r - i = (r - (i + 1)) + 1 := by omega
+        rw [this, List.getD_cons_succ]; omega
+
+theorem idxMax_spec (l : List Nat) (hpos : 0 < l.sum) :
+    idxMax l < l.length ∧ 0 < l.getD (idxMax l) 0 := by
+  unfold idxMax
+  rcases idxMaxAux_spec l 0 0 0 with ⟨_, h2⟩ | ⟨_, h2, h3⟩
+  · have := sum_eq_zero_of_all_le l h2; omega
+  · simp only [Nat.sub_zero] at h3
+    exact ⟨by omega, by omega⟩
+
+/-! ### support -/
+
+theorem mem_supportAux (l : List Nat) (i j : Nat) :
+    j ∈ supportAux l i ↔ (i ≤ j ∧ j < i + l.length ∧ l.getD (j - i) 0 ≠ 0) := by
+  induction l generalizing i with
+  | nil => simp [supportAux]
+  | cons f fs ih =>
+    unfold supportAux
+    have key : ∀ (hji : j ≠ i), (f :: fs).getD (j - i) 0 = fs.getD (j - (i + 1)) 0 ∨ j < i := by
+      intro hji
+      by_cases hlt : j < i
+      · exact Or.inr hlt
+      · left
+        have : j - i = (j - (i + 1)) + 1 := by omega
+        rw [this, List.getD_cons_succ]
+    split
+    · rename_i hf
+      rw [ih]
+      constructor
+      · rintro ⟨h1, h2, h3⟩
+        rcases key (by omega) with hk | hk
+        · rw [hk]; exact ⟨by omega, by simp; omega, h3⟩
+        · omega
+      · rintro ⟨h1, h2, h3⟩
+        by_cases hji : j = i
+        · subst hji; simp [hf] at h3
+        · rcases key hji with hk | hk
+          · rw [hk] at h3; simp at h2; exact ⟨by omega, by omega, h3⟩
+          · omega
+    · rename_i hf
+      rw [List.mem_cons, ih]
+      constructor
+      · rintro (rfl | ⟨h1, h2, h3⟩)
+        · simp [hf]
+        · rcases key (by omega) with hk | hk
+          · rw [hk]; exact ⟨by omega, by simp; omega, h3⟩
+          · omega
+      · rintro ⟨h1, h2, h3⟩
+        by_cases hji : j = i
+        · exact Or.inl hji
+        · right
+          rcases key hji with hk | hk
+          · rw [hk] at h3; simp at h2; exact ⟨by omega, by omega, h3⟩
+          · omega
+
+theorem mem_support (l : List Nat) (j : Nat) :
+    j ∈ support l ↔ (j < l.length ∧ l.getD j 0 ≠ 0) := by
+  unfold support
+  rw [mem_supportAux]
+  simp
+
+theorem pairwise_supportAux (l : List Nat) (i : Nat) : (supportAux l i).Pairwise (· < ·) := by
+  induction l generalizing i with
+  | nil => simp [supportAux]
+  | cons f fs ih =>
+    unfold supportAux
+    split
+    · exact ih (i + 1)
+    · rw [List.pairwise_cons]
+      refine ⟨?_, ih (i + 1)⟩
+      intro j hj
+      rw [mem_supportAux] at hj
+      omega
+
+theorem length_supportAux (l : List Nat) (i : Nat) :
+    (supportAux l i).length = (l.filter (· ≠ 0)).length := by
+  induction l generalizing i with
+  | nil => simp [supportAux]
+  | cons f fs ih =>
+    unfold supportAux
+    split
+    · rename_i hf; simp [hf, ih]
+    · rename_i hf; simp [hf, ih]
+
+/-! ### sums of sparse lists -/
+
+theorem sum_eq_zero_of_getD (l : List Nat) (h : ∀ i, l.getD i 0 = 0) : l.sum = 0 := by
+  induction l with
+  | nil => rfl
+  | cons x xs ih =>
+    have h0 := h 0
+    have h1 := ih (fun i => by simpa using h (i + 1))
+    simp only [List.getD_cons_zero] at h0
+    simp only [List.sum_cons]; omega
+
+theorem sum_eq_getD_of_single (l : List Nat) (a : Nat) (h : ∀ i, i ≠ a → l.getD i 0 = 0) :
+    l.sum = l.getD a 0 := by
+  induction l generalizing a with
+  | nil => simp
+  | cons x xs ih =>
+    cases a with
+    | zero =>
+      have := sum_eq_zero_of_getD xs (fun i => by simpa using h (i + 1) (by omega))
+      simp only [List.sum_cons, List.getD_cons_zero]; omega
+    | succ a =>
+      have h0 := h 0 (by omega)
+      have h1 := ih a (fun i hi => by simpa using h (i + 1) (by omega))
+      simp only [List.getD_cons_zero] at h0
+      simp only [List.sum_cons, List.getD_cons_succ]; omega
+
+/-! ### pass / rounds -/
+
+theorem pass_sum_up (fs : List Nat) (d : Nat) :
+    (pass true fs d).1.sum + (pass true fs d).2 = fs.sum + d := by
+  induction fs generalizing d with
+  | nil => simp [pass]
+  | cons f fs ih =>
+    unfold pass
+    split
+    · simp_all
+    · split
+      · have := ih d; simp only [List.sum_cons] at *; omega
+      · have := ih (d-1); simp only [List.sum_cons, if_true] at *; omega
+
+theorem pass_sum_down (fs : List Nat) (d : Nat) :
+    (pass false fs d).1.sum + d = fs.sum + (pass false fs d).2 ∧ (pass false fs d).2 ≤ d := by
+  induction fs generalizing d with
+  | nil => simp [pass]
+  | cons f fs ih =>
+    unfold pass
+    split
+    · simp_all
+    · split
+      · have := ih d; simp only [List.sum_cons] at *; omega
+      · have := ih (d-1)
+        simp only [List.sum_cons, Bool.false_eq_true, if_false] at *
+        omega
+
+theorem pass_ZP (up : Bool) (fs : List Nat) (d : Nat) : ZP (pass up fs d).1 fs := by
+  induction fs generalizing d with
+  | nil => simp [pass]; exact ZP.refl _
+  | cons f fs ih =>
+    unfold pass
+    split
+    · exact ZP.refl _
+    · split
+      · exact ZP.cons Iff.rfl (ih d)
+      · exact ZP.cons (by split <;> omega) (ih (d - 1))
+
+theorem rounds_sum_up (k : Nat) (fs : List Nat) (d : Nat) :
+    (rounds true k fs d).1.sum + (rounds true k fs d).2 = fs.sum + d := by
+  induction k generalizing fs d with
+  | zero => simp [rounds]
+  | succ k ih =>
+    unfold rounds
+    split
+    · simp_all
+    · have h1 := ih (pass true fs d).1 (pass true fs d).2
+      have h2 := pass_sum_up fs d
+      omega
+
+theorem rounds_sum_down (k : Nat) (fs : List Nat) (d : Nat) :
+    (rounds false k fs d).1.sum + d = fs.sum + (rounds false k fs d).2 ∧
+      (rounds false k fs d).2 ≤ d := by
+  induction k generalizing fs d with
+  | zero => simp [rounds]
+  | succ k ih =>
+    unfold rounds
+    split
+    · simp_all
+    · have h1 := ih (pass false fs d).1 (pass false fs d).2
+      have h2 := pass_sum_down fs d
+      omega
+
+theorem rounds_ZP (up : Bool) (k : Nat) (fs : List Nat) (d : Nat) : ZP (rounds up k fs d).1 fs := by
+  induction k generalizing fs d with
+  | zero => simp [rounds]; exact ZP.refl _
+  | succ k ih =>
+    unfold rounds
+    split
+    · exact ZP.refl _
+    · exact (ih _ _).trans (pass_ZP up fs d)
+
+/-! ### drain -/
+
+/-- what `drain` can remove at most: Σ (f - 1) -/
+def cap : List Nat → Nat
+  | [] => 0
+  | f :: fs => (f - 1) + cap fs
+
+theorem cap_le (l : List Nat) : l.sum ≤ cap l + l.length := by
+  induction l with
+  | nil => simp [cap]
+  | cons f fs ih => simp only [cap, List.sum_cons, List.length_cons]; omega
+
+theorem drain_sum (fs : List Nat) (d : Nat) :
+    (drain fs d).1.sum + d = fs.sum + (drain fs d).2 := by
+  induction fs generalizing d with
+  | nil => simp [drain]
+  | cons f fs ih =>
+    unfold drain
+    split
+    · simp_all
+    · have := ih (d - min d (f - 1))
+      simp only [List.sum_cons] at *
+      omega
+
+theorem drain_residual (fs : List Nat) (d : Nat) : (drain fs d).2 = d - cap fs := by
+  induction fs generalizing d with
+  | nil => simp [drain, cap]
+  | cons f fs ih =>
+    unfold drain
+    split
+    · simp_all
+    · have := ih (d - min d (f - 1))
+      simp only [cap] at *
+      omega
+
+theorem drain_ZP (fs : List Nat) (d : Nat) : ZP (drain fs d).1 fs := by
+  induction fs generalizing d with
+  | nil => simp [drain]; exact ZP.refl _
+  | cons f fs ih =>
+    unfold drain
+    split
+    · exact ZP.refl _
+    · exact ZP.cons (by omega) (ih _)
+
+/-- tail of the slow down path, after `rounds` -/
+theorem down_tail (r1 : List Nat) (r2 m scale : Nat) (hm : m < r1.length)
+    (hpos : 0 < r1.getD m 0) (hsum : r1.sum = scale + r2) (hlen : r1.length ≤ scale) :
+    (drain (r1.set m (r1.getD m 0 - min r2 (r1.getD m 0 - 1)))
+        (r2 - min r2 (r1.getD m 0 - 1))).1.sum = scale ∧
+    ZP (drain (r1.set m (r1.getD m 0 - min r2 (r1.getD m 0 - 1)))
+        (r2 - min r2 (r1.getD m 0 - 1))).1 r1 := by
+  generalize hd : min r2 (r1.getD m 0 - 1) = d
+  have hzp : ZP (r1.set m (r1.getD m 0 - d)) r1 := ZP_set _ _ _ (by omega)
+  have hs2 := sum_set r1 m (r1.getD m 0 - d) hm
+  generalize r1.set m (r1.getD m 0 - d) = s2 at hzp hs2 ⊢
+  have h1 := drain_sum s2 (r2 - d)
+  have h2 := drain_residual s2 (r2 - d)
+  have h3 := cap_le s2
+  have h4 := hzp.1
+  refine ⟨by omega, (drain_ZP _ _).trans hzp⟩
+
+/-! ### main theorems -/
+
+theorem getD_of_le (l : List Nat) (i : Nat) (hi : l.length ≤ i) : l.getD i 0 = 0 := by
+  induction l generalizing i with
+  | nil => simp
+  | cons x xs ih =>
+    cases i with
+    | zero => simp at hi
+    | succ i => rw [List.getD_cons_succ]; exact ih i (by simpa using hi)
+
+theorem getD_eq_zero_of_sum (l : List Nat) (h : l.sum = 0) (i : Nat) : l.getD i 0 = 0 := by
+  induction l generalizing i with
+  | nil => simp
+  | cons x xs ih =>
+    simp only [List.sum_cons] at h
+    cases i with
+    | zero => rw [List.getD_cons_zero]; omega
+    | succ i => rw [List.getD_cons_succ]; exact ih (by omega) i
+
+theorem ZP.sum_pos {a b : List Nat} (h : ZP a b) (hb : 0 < b.sum) : 0 < a.sum := by
+  apply Nat.pos_of_ne_zero
+  intro ha
+  have : b.sum = 0 := sum_eq_zero_of_getD b (fun i => by
+    have h1 := getD_eq_zero_of_sum a ha i
+    have h2 := h.2 i
+    omega)
+  omega
+
+theorem good_of (h F : List Nat) (scale sz : Nat) (hsz : sz = (support h).length)
+    (hsum : F.sum = scale) (hzp : ZP F h) :
+    ∃ o, Res.ok ⟨sz, support h, F⟩ = .ok o ∧
+      o.freqs.length = h.length ∧ o.freqs.sum = scale ∧
+      (∀ i, i < h.length → (0 < h.getD i 0 ↔ 0 < o.freqs.getD i 0)) ∧
+      o.size = (h.filter (· ≠ 0)).length ∧
+      o.alphabet.length = o.size ∧
+      o.alphabet.Pairwise (· < ·) ∧
+      (∀ i, i ∈ o.alphabet ↔ (i < h.length ∧ h.getD i 0 ≠ 0)) := by
+  refine ⟨_, rfl, hzp.1, hsum, fun i _ => (hzp.2 i).symm, ?_, hsz.symm,
+    pairwise_supportAux h 0, mem_support h⟩
+  subst hsz; exact length_supportAux h 0
+
 theorem normalize_valid (h : List Nat) (scale : Nat)
     (hlen : h.length ≤ 256) (hscale : 256 ≤ scale ∧ scale ≤ 65536) (htot : 0 < h.sum) :
     ∃ o, normalize h h.sum scale = .ok o ∧
@@ -11,10 +426,142 @@ theorem normalize_valid (h : List Nat) (scale : Nat)
       o.alphabet.length = o.size ∧
       o.alphabet.Pairwise (· < ·) ∧
       (∀ i, i ∈ o.alphabet ↔ (i < h.length ∧ h.getD i 0 ≠ 0)) := by
-  sorry
+  have hne : h.length ≠ 0 := by
+    intro h0
+    rw [List.length_eq_zero_iff] at h0
+    subst h0
+    simp at htot
+  simp only [normalize]
+  rw [if_neg (by omega), if_neg (by omega), if_neg (by omega)]
+  split
+  · rename_i heq
+    exact good_of h h scale _ rfl heq (ZP.refl h)
+  · rename_i hneq
+    have hs : ZP (h.map (scaleOne h.sum scale)) h := ZP_scale _ _ htot h
+    generalize h.map (scaleOne h.sum scale) = s at hs ⊢
+    have hspos : 0 < s.sum := hs.sum_pos htot
+    obtain ⟨hm, hfm⟩ := idxMax_spec s hspos
+    generalize idxMax s = m at hm hfm ⊢
+    have hslen := hs.1
+    split
+    · -- n = 0 is impossible
+      rename_i hn0
+      exfalso
+      rw [List.length_eq_zero_iff] at hn0
+      have : h.sum = 0 := sum_eq_zero_of_getD h (fun i => by
+        by_cases hi : i < h.length
+        · have h1 : i ∉ support h := by rw [hn0]; simp
+          rw [mem_support] at h1
+          by_cases hz : h.getD i 0 = 0
+          · exact hz
+          · exact absurd ⟨hi, hz⟩ h1
+        · exact getD_of_le h i (by omega))
+      omega
+    · split
+      · -- n = 1
+        rename_i hn0 hn1
+        obtain ⟨a, ha⟩ := List.length_eq_one_iff.mp hn1
+        have hall : ∀ i, i ≠ a → s.getD i 0 = 0 := by
+          intro i hi
+          have h1 : i ∉ support h := by rw [ha]; simpa using hi
+          rw [mem_support] at h1
+          have h2 := hs.2 i
+          by_cases hil : i < h.length
+          · have : h.getD i 0 = 0 := by
+              by_cases hz : h.getD i 0 = 0
+              · exact hz
+              · exact absurd ⟨hil, hz⟩ h1
+            omega
+          · have := getD_of_le h i (by omega); omega
+        have ha_mem : a ∈ support h := by rw [ha]; simp
+        rw [mem_support] at ha_mem
+        have hsa : 0 < s.getD a 0 := (hs.2 a).mpr (by omega)
+        have h3 := sum_eq_getD_of_single s a hall
+        have h4 := sum_set s a scale (by omega)
+        have hhd : (support h).headD 0 = a := by rw [ha]; rfl
+        rw [hhd]
+        exact good_of h _ scale 1 hn1.symm (by omega) ((ZP_set s a scale (by omega)).trans hs)
+      · split
+        · rename_i heq
+          exact good_of h s scale _ rfl heq hs
+        · rename_i hsne
+          split
+          · rename_i hgt
+            split
+            · -- fast path down
+              rename_i hle
+              have h4 := sum_set s m (s.getD m 0 - (s.sum - scale)) hm
+              exact good_of h _ scale _ rfl (by omega) ((ZP_set s m _ (by omega)).trans hs)
+            · -- slow path down
+              rename_i hnle
+              have hs1 := sum_set s m (s.getD m 0 - s.getD m 0 / 16) hm
+              have hz1 : ZP (s.set m (s.getD m 0 - s.getD m 0 / 16)) s :=
+                ZP_set s m _ (by omega)
+              generalize s.set m (s.getD m 0 - s.getD m 0 / 16) = s1 at hs1 hz1 ⊢
+              have hr1 := rounds_sum_down 5 s1 (s.sum - scale - s.getD m 0 / 16)
+              have hr2 := rounds_ZP false 5 s1 (s.sum - scale - s.getD m 0 / 16)
+              generalize rounds false 5 s1 (s.sum - scale - s.getD m 0 / 16) = r at hr1 hr2 ⊢
+              have hzr : ZP r.1 s := hr2.trans hz1
+              have hl := hzr.1
+              have hp := (hzr.2 m).mpr hfm
+              have := down_tail r.1 r.2 m scale (by omega) hp (by omega) (by omega)
+              exact good_of h _ scale _ rfl this.1 (this.2.trans (hzr.trans hs))
+          · rename_i hngt
+            split
+            · -- fast path up
+              rename_i hle
+              have h4 := sum_set s m (s.getD m 0 + (scale - s.sum)) hm
+              exact good_of h _ scale _ rfl (by omega) ((ZP_set s m _ (by omega)).trans hs)
+            · -- slow path up
+              rename_i hnle
+              have hs1 := sum_set s m (s.getD m 0 + s.getD m 0 / 16) hm
+              have hz1 : ZP (s.set m (s.getD m 0 + s.getD m 0 / 16)) s :=
+                ZP_set s m _ (by omega)
+              generalize s.set m (s.getD m 0 + s.getD m 0 / 16) = s1 at hs1 hz1 ⊢
+              have hr1 := rounds_sum_up 5 s1 (scale - s.sum - s.getD m 0 / 16)
+              have hr2 := rounds_ZP true 5 s1 (scale - s.sum - s.getD m 0 / 16)
+              generalize rounds true 5 s1 (scale - s.sum - s.getD m 0 / 16) = r at hr1 hr2 ⊢
+              have hzr : ZP r.1 s := hr2.trans hz1
+              have hl := hzr.1
+              have hp := (hzr.2 m).mpr hfm
+              have h4 := sum_set r.1 m (r.1.getD m 0 + r.2) (by omega)
+              exact good_of h _ scale _ rfl (by omega)
+                ((ZP_set r.1 m _ (by omega)).trans (hzr.trans hs))
 
 theorem normalize_err_iff (h : List Nat) (total scale : Nat) :
     (∃ m, normalize h total scale = .err m) ↔ (h.length > 256 ∨ scale < 256 ∨ scale > 65536) := by
-  sorry
+  by_cases h1 : h.length > 256
+  · simp only [normalize, if_pos h1]
+    exact ⟨fun _ => Or.inl h1, fun _ => ⟨_, rfl⟩⟩
+  · by_cases h2 : scale < 256 ∨ scale > 65536
+    · simp only [normalize, if_neg h1, if_pos h2]
+      exact ⟨fun _ => Or.inr h2, fun _ => ⟨_, rfl⟩⟩
+    · constructor
+      · rintro ⟨m, hm⟩
+        exfalso
+        revert hm
+        simp only [normalize, if_neg h1, if_neg h2]
+        repeat' split
+        all_goals (intro hm; cases hm)
+      · intro h3; omega
+
+/-! ### non-vacuity checks (kernel-evaluated) -/
+
+-- sum = scale directly
+example : (match normalize [3,0,1,1] 5 256 with | .ok o => o.freqs.sum | _ => 0) = 256 := by
+  decide
+-- fast path down
+example : (match normalize [1000,0,1,1,7,7,7,300] 1323 256 with
+    | .ok o => o.freqs.sum | _ => 0) = 256 := by decide
+-- slow path up
+example : (match normalize (List.replicate 9 7) 63 256 with
+    | .ok o => o.freqs.sum | _ => 0) = 256 := by decide
+-- slow path down
+example : (match normalize (List.replicate 13 7) 91 256 with
+    | .ok o => o.freqs.sum | _ => 0) = 256 := by decide
+-- slow path down where the final `drain` has real work to do (256 symbols, scale 256)
+set_option maxRecDepth 20000 in
+example : (match normalize (30 :: 30 :: List.replicate 254 1) 314 256 with
+    | .ok o => o.freqs.sum | _ => 0) = 256 := by decide
 
 end Kanzi.Normalize
